@@ -138,7 +138,9 @@ func genCall(rg *rand.Rand, class, sid string) call {
 		nIn = 1 + rg.IntN(3)
 	case "stream:castfail-second":
 		exchangeOnly()
-		c.IVariant = "x-int32-w-utf8"
+		// first column castable-but-unequal (so the cast allocates), then a
+		// second column that is refused: either not castable, or misnamed
+		c.IVariant = []string{"x-int32-w-utf8", "x-int32-w-misnamed"}[rg.IntN(2)]
 		nIn = 1 + rg.IntN(3)
 	case "stream:init-error":
 		o.InitAct = svc.ActError
@@ -249,11 +251,30 @@ func inputSchema(c call) *arrow.Schema {
 	if c.IVariant == "x-int32-w-utf8" {
 		return arrow.NewSchema([]arrow.Field{{Name: "x", Type: arrow.PrimitiveTypes.Int32}, {Name: "w", Type: arrow.BinaryTypes.String}}, nil)
 	}
+	if c.IVariant == "x-int32-w-misnamed" {
+		return arrow.NewSchema([]arrow.Field{{Name: "x", Type: arrow.PrimitiveTypes.Int32}, {Name: "weight", Type: arrow.PrimitiveTypes.Float64}}, nil)
+	}
 	return svc.InputSchemaVariant(c.IVariant)
 }
 
 // buildInput builds one input batch (svc.Alloc: the checked emission allocator).
 func buildInput(c call, in svc.InputSpec) arrow.RecordBatch {
+	if c.IVariant == "x-int32-w-misnamed" {
+		xb := array.NewInt32Builder(svc.Alloc)
+		wb := array.NewFloat64Builder(svc.Alloc)
+		for r := range in.X {
+			xb.Append(int32(in.X[r]))
+			wb.Append(float64(r) + 0.5)
+		}
+		cols := []arrow.Array{xb.NewArray(), wb.NewArray()}
+		xb.Release()
+		wb.Release()
+		rec := array.NewRecordBatch(inputSchema(c), cols, int64(len(in.X)))
+		for _, col := range cols {
+			col.Release()
+		}
+		return rec
+	}
 	if c.IVariant != "x-int32-w-utf8" {
 		return svc.BuildInput(in, c.IVariant)
 	}
